@@ -186,7 +186,8 @@ def run(spec, ctx):
             q2 = Renderer(r, plain=True).string(s, '"')
             for q in (q1, q2):
                 texts += ["$[%s]" % q, "$..[%s]" % q, "$[?@.a == %s]" % q, "$[?@[%s] == %s]" % (q, q), "$[%s, %s]" % (q, q), "$[?%s in @]" % q, "$[?@ in [%s, 1]]" % q, "$[?match(@.a, %s)]" % q]
-        for num in ("0", "-0", "1", "-1", "1.0", "1.5", "-1.5", "1e2", "1E2", "1e-2", "1.5e3", "1.0e20", "1e20", "1e-7", "9007199254740991", "-9007199254740991", "0.1", "12e1", "1.", "100000000000000000000.0", "1e15", "1e16", "1.5e-10", "123456789.125", "1e400", "1.0e400", "-1.0e400", "1e-400", "1e308", "1.7976931348623157e308", "5e-324"):
+        for num in ("0", "-0", "1", "-1", "1.0", "1.5", "-1.5", "1e2", "1E2", "1e-2", "1.5e3", "1.0e20", "1e20", "1e-7", "9007199254740991", "-9007199254740991", "0.1", "12e1", "1.", "100000000000000000000.0", "1e15", "1e16", "1.5e-10", "123456789.125", "1e400", "1.0e400", "-1.0e400", "1e-400", "1e308", "1.7976931348623157e308", "5e-324",
+                    "1e309", "1E+400", "1e4299", "1e4300", "1e4301", "12e4299", "1e5000", "1.5e4300", "1e-4400", "9" * 400, "9" * 4300, "9" * 4301, "-" + "9" * 4301, "9" * 400 + ".5", "0." + "0" * 4400 + "1", "1" + "0" * 309, "1" + "0" * 309 + ".0"):
             texts += ["$[?@.a == %s]" % num, "$[?@.a < %s]" % num, "$[?%s >= @.a]" % num, "$[?@.a in [%s, 2]]" % num, "$[?length(@.a) == %s]" % num]
         for k in range(5):
             for fl in itertools.combinations("aims", k):
